@@ -193,7 +193,7 @@ func (p *c01) Init(tier string, seed int64) {
 	{
 		depths := []int{1, 2, 3, 5, 10, 50, 200}
 		if p.thorough() {
-			depths = append(depths, 500, 1000, 2000)
+			depths = append(depths, 500, 1000, 2000, 5000, 9000)
 		}
 		type lad struct{ open, mid, close string }
 		lads := []lad{
@@ -351,13 +351,13 @@ func fragShape(s string) string {
 }
 
 func (p *c01) Rule() string {
-	return "inputs: every byte prefix of the seed corpus (repo tests/examples/testdata + hand-written, one per tag/operator); single-fragment deletion, duplication and insertion at every fragment boundary of every corpus template; bounded-exhaustive sequences over a 26-fragment hostile alphabet (length<=3 quick, <=5 thorough); seeded random byte / delimiter-alphabet / fragment strings; hostile bytes (NUL, 0xFF, truncated UTF-8, CR, CRLF, U+2028) substituted at corpus positions; nesting ladders to depth 200 (quick) / 2000 (thorough). Each input goes through parse.Parse, core Env.Parse and Twig Env.Parse (3 evaluations). Non-trivial = contains an opening delimiter; distinct = (error kind with numbers stripped, first 12 fragment classes)."
+	return "inputs: every byte prefix of the seed corpus (repo tests/examples/testdata + hand-written, one per tag/operator); single-fragment deletion, duplication and insertion at every fragment boundary of every corpus template; bounded-exhaustive sequences over a 26-fragment hostile alphabet (length<=3 quick, <=5 thorough); seeded random byte / delimiter-alphabet / fragment strings; hostile bytes (NUL, 0xFF, truncated UTF-8, CR, CRLF, U+2028) substituted at corpus positions; nesting ladders to depth 200 (quick) / 9000 (thorough). Each input goes through parse.Parse, core Env.Parse and Twig Env.Parse (3 evaluations). Non-trivial = contains an opening delimiter; distinct = (error kind with numbers stripped, first 12 fragment classes)."
 }
 
 func (p *c01) Assumptions() []string {
 	return []string{
 		"hang verdicts come from exact step counters at verif hooks (budget 64*len+4096 tokeniser steps / token reads), the Go runtime deadlock detector and a per-case CPU budget; none depends on the wall clock",
-		"bracket/tag nesting beyond depth 2000 is not exercised (the property excludes ~10^4)",
+		"bracket/tag nesting beyond depth 9000 is not exercised (the property excludes ~10^4)",
 		"inputs longer than 64 KiB are not exercised",
 	}
 }
